@@ -1,5 +1,5 @@
 (* C07 (round 9) - member access forms x places, and the STATE member lookup depends on.  ONLY statements: each is closed by
-   `exact` of a lemma of theories/ClassMembersProofs.v.  The side condition compares the fields of `struct Vm`, the
+   `exact` of a lemma of theories/ClassMembersProofs.v, the side condition by computation.  It compares the fields of `struct Vm`, the
    per-function lookup signatures (`self.<name>` touched, `.fields` / `.methods` reads) and the (class, name) helper
    functions re-read from the CURRENT vm.rs (YVGen.ClassSrc, translator/translate_c07.py) with the tables the model was
    written against: a method cache, a counter, a merged lookup helper, a lookup that starts to read the instance's fields
@@ -14,7 +14,7 @@ Theorem C07_side_member_lookup_state_and_shape :
   str_list_eqb src_vm_state_fields model_vm_state_fields = true /\
   pair_list_eqb src_member_lookup_shapes model_member_lookup_shapes = true /\
   str_list_eqb src_class_and_name_functions model_class_and_name_functions = true.
-Proof. exact side_member_lookup_state_and_shape. Qed.
+Proof. vm_compute. repeat split; reflexivity. Qed.
 
 Theorem C07_bind_method_depends_on_class_store_only : forall w1 w2 c recv n,
   w_cs w1 = w_cs w2 -> bind_method w1 c recv n = bind_method w2 c recv n.
